@@ -14,7 +14,7 @@ G = "pyopenapi_gen.generator.client_generator:ClientGenerator.generate"
 REAL = ["project_root", "out_dir", "core_dir", "main_render_context"]
 READ_ONLY = ["self._show_diffs", "_show_diffs", "exists", "self._log_progress", "_log_progress", "append", "print", "relative_to"]
 
-c = contract(G + "#non-force-branch", props=["C10", "C09"], region_if={"test": "not force and out_dir.exists()", "part": "body"},
+c = contract(G + "#non-force-branch", props=["C10", "C11"], region_if={"test": "not force and out_dir.exists()", "part": "body"},
              types={"project_root": "any", "out_dir": "any", "core_dir": "any", "main_render_context": "any", "output_package": "str",
                     "resolved_core_package_fqn": "str", "core_package": "any", "ir": "any", "no_postprocess": "bool", "generated_files": "list"},
              independent_of={"sources": REAL, "allowed": READ_ONLY}, opaque_truediv=True, abstract_unsupported=True,
@@ -24,6 +24,25 @@ c = contract(G + "#non-force-branch", props=["C10", "C09"], region_if={"test": "
 @c.ensures(only_exit="end", note="vacuity guard: the branch has a normal exit")
 def nf_reaches_end():
     return True
+
+
+# ---- the gate of the non-force branch (C09: re-running over unchanged output reports "no differences", and ONLY then) -----------------------------
+from pyvc.spec import call_count, call_arg, call_result, implies  # noqa: E402
+
+c = contract(G + "#diff-gate", props=["C09"], region_if={"test": "not force and out_dir.exists()", "part": "body"},
+             types={"project_root": "any", "out_dir": "any", "core_dir": "any", "main_render_context": "any", "output_package": "str",
+                    "resolved_core_package_fqn": "str", "core_package": "any", "ir": "any", "no_postprocess": "bool", "generated_files": "list"},
+             track_calls=True, opaque_truediv=True, abstract_unsupported=True,
+             inline=["tmp_pkg_to_path", "ClientGenerator.generate#diff-gate.<locals>.tmp_pkg_to_path"])
+
+
+@c.ensures(only_exit="end", note="C09, from the statement: the branch ends normally (existing files kept, no error) only if the comparison of the client package "
+                                 "directory — and of the core directory when it is a different one — found no difference; the existing directories are the "
+                                 "first argument of each comparison")
+def gate_no_diff_on_normal_exit(out_dir, core_dir):
+    n = call_count("ClientGenerator._show_diffs")
+    return (n >= 1 and call_arg("ClientGenerator._show_diffs", 0, 1) == str(out_dir) and not call_result("ClientGenerator._show_diffs", 0)
+            and implies(core_dir != out_dir, n == 2 and call_arg("ClientGenerator._show_diffs", 1, 1) == str(core_dir) and not call_result("ClientGenerator._show_diffs", 1)))
 
 
 # ---- force / first-run branch ----------------------------------------------------------------------------------------------------
